@@ -28,7 +28,14 @@ fn phase_ops(scale: usize, seed: u64) -> (u64, u64) {
     let mut h = 0xcbf29ce484222325u64;
     let mut ops_done = 0u64;
     for kind in ALL_KINDS {
-        let periods: &[usize] = if kind.n_periods() == 0 { &[1] } else { &[1, 2, 3, 5] };
+        // Miri (scale 1-2) keeps to small windows; the native sanitizers also run wider ones
+        let periods: &[usize] = if kind.n_periods() == 0 {
+            &[1]
+        } else if scale >= 5 {
+            &[1, 2, 3, 5, 9, 16, 33, 64]
+        } else {
+            &[1, 2, 3, 5, 9]
+        };
         for &n in periods {
             let p = variant(kind, n);
             let mut rng = Rng::derive(seed, kind as u64, n as u64);
@@ -93,7 +100,7 @@ fn phase_threads(scale: usize, seed: u64, threads: usize) -> (u64, u64) {
             std::thread::spawn(move || {
                 let mut h = 0u64;
                 let mut n_ops = 0u64;
-                let mut insts: Vec<Inst> = ALL_KINDS.iter().map(|k| Inst::new(&variant(*k, 1 + (w + *k as usize) % 4))).collect();
+                let mut insts: Vec<Inst> = ALL_KINDS.iter().map(|k| Inst::new(&variant(*k, 1 + (w * 3 + *k as usize) % 11))).collect();
                 let mut g = BarGen::new(BarStyle::Mixed, 1.0, seed ^ w as u64);
                 barrier.wait();
                 for step in 0..(6 * scale) {
